@@ -172,14 +172,14 @@ WITNESSES = {
 }
 SIM_SHAPES = [
     # (constants, walks per worker (x4 workers))
-    (K(NT=2, NS=3, PipeNames='{"s", "b", "sb", "bs", "sbh", "bhs", "bb", "h"}', NRes=2, MaxRecs=12, MaxSets=3, MaxArgs=3,
-       MaxFlush=4, MaxNull=2, LgSet="{1, 2, 3}", MaxScope=8, MaxNest=3, NSev=3, NBody=4, NTs=2, NId=2, NFl=2, NAK=3, NAV=4,
+    (K(NT=2, NS=7, PipeNames='{"s", "b", "sb", "bs", "sbh", "bhs", "bb", "h"}', NRes=2, MaxRecs=12, MaxSets=3, MaxArgs=3,
+       MaxFlush=4, MaxNull=2, LgSet="{1, 2, 3}", MaxScope=8, MaxNest=3, NSev=3, NBody=4, NTs=2, NId=3, NFl=3, NAK=3, NAV=4,
        MaxMap=2, NEv=2, NName=2, GenDepth=60, Hist="TRUE"), 1.0),
-    (K(NT=3, NS=3, PipeNames='{"sb", "bs", "bhs", "bb"}', NRes=2, MaxRecs=20, MaxSets=2, MaxArgs=2, MaxFlush=6, MaxNull=2,
-       LgSet="{1, 2, 3}", MaxScope=12, MaxNest=3, NSev=2, NBody=4, NTs=2, NId=2, NFl=2, NAK=4, NAV=4, MaxMap=3, NEv=2, NName=2,
+    (K(NT=3, NS=5, PipeNames='{"sb", "bs", "bhs", "bb"}', NRes=2, MaxRecs=20, MaxSets=2, MaxArgs=2, MaxFlush=6, MaxNull=2,
+       LgSet="{1, 2, 3}", MaxScope=12, MaxNest=3, NSev=2, NBody=4, NTs=2, NId=3, NFl=3, NAK=4, NAV=4, MaxMap=3, NEv=2, NName=2,
        GenDepth=90, Hist="TRUE"), 0.5),
-    (K(NT=1, NS=2, PipeNames='{"b", "sbh"}', NRes=1, MaxRecs=10, MaxSets=4, MaxArgs=3, MaxFlush=3, MaxNull=1, LgSet="{1, 3}",
-       MaxScope=4, MaxNest=2, NSev=6, NBody=6, NTs=3, NId=3, NFl=2, NAK=2, NAV=6, MaxMap=2, NEv=3, NName=3, GenDepth=50,
+    (K(NT=1, NS=3, PipeNames='{"b", "sbh"}', NRes=1, MaxRecs=10, MaxSets=4, MaxArgs=3, MaxFlush=3, MaxNull=1, LgSet="{1, 3}",
+       MaxScope=4, MaxNest=2, NSev=6, NBody=6, NTs=3, NId=3, NFl=3, NAK=2, NAV=6, MaxMap=2, NEv=3, NName=3, GenDepth=50,
        Hist="TRUE"), 0.5),
 ]
 
@@ -247,7 +247,7 @@ def _first_error(err):
     return err.strip()[-300:]
 
 
-def run_replay(ctx, exe, insts, tag):
+def run_replay(ctx, exe, insts, tag, watchdog_s=None):
     """-> ({id: result}, [crash records]).  Thread-safe (touches no verdicts).  A process that dies is
     restarted after the behaviour it died in; a crash at a step the spec marks `mayCrash` (named
     deviation) is expected as long as the defect exists, any other crash is limited to 3 restarts."""
@@ -260,17 +260,19 @@ def run_replay(ctx, exe, insts, tag):
         with open(path, "w") as f:
             for b in todo:
                 f.write(json.dumps(b) + "\n")
-        r = hrun.run_harness(exe, ["replay", path], timeout=900)
+        r = hrun.run_harness(exe, ["replay", path], timeout=600, env={"C13_WATCHDOG_S": str(watchdog_s)} if watchdog_s else None)
         out = r.json()
         done = [g for g in out if g.get("done")]
         for g in done:
             res[g["beh"]] = g
         if r.rc == 0 and len(done) == len(todo):
             break
-        if r.timed_out:
+        hang = [g for g in out if g.get("hang")]
+        if r.timed_out or (r.rc == 3 and hang):
+            # the harness watchdog fired (a call of the real code does not return): names behaviour and step
             cur = todo[len(done)] if len(done) < len(todo) else None
-            crashes.append({"behaviour": cur, "rc": "timeout", "stderr": r.err[-3000:], "first": "harness timed out (real code stuck?)",
-                            "at": None, "expected": False})
+            crashes.append({"behaviour": cur, "rc": "hang", "stderr": r.err[-3000:], "first": "a call does not return (watchdog)",
+                            "at": hang[-1]["step"] if hang else None, "expected": False})
             if cur is not None:
                 res[cur["id"]] = {"beh": cur["id"], "ok": False, "crash": True}
             todo = todo[len(done) + 1:]
@@ -313,11 +315,21 @@ def replay_all(ctx, exe, insts, tag, nproc=4):
     return results, crashes
 
 
-def classify(ctx, insts, results, crashes, what_run):
+def classify(ctx, insts, results, crashes, what_run, exe=None):
     by_id = {b["id"]: b for b in insts}
     nunexp = nbad = 0
+    confirmed = False
     for c in crashes:
         b = c["behaviour"]
+        if c["rc"] == "hang" and not confirmed and exe is not None and b is not None:
+            # a watchdog on a loaded machine is not yet a hang: that behaviour alone, long watchdog
+            r2, c2 = run_replay(ctx, exe, [dict(b, id=0)], "confirm%d" % b["id"], watchdog_s=90)
+            if not any(x["rc"] == "hang" for x in c2):
+                if r2.get(0) is not None:
+                    results[b["id"]] = dict(r2[0], beh=b["id"])
+                crashes = [x for x in crashes if x is not c] + [dict(x, behaviour=b) for x in c2]
+                continue
+            confirmed = True
         if c["expected"]:
             st = b["steps"][c["at"]]
             ctx.deviation(CRASH, "%s: the process dies in EmitLogRecord(%s) at step %d of a TLC behaviour (src=%s): %s" % (
@@ -326,9 +338,12 @@ def classify(ctx, insts, results, crashes, what_run):
         else:
             nunexp += 1
             if nunexp <= 3:
-                ctx.violation("%s: real code crashed / got stuck (rc=%s) while replaying a TLC behaviour (src=%s): %s" % (
-                    what_run, c["rc"], b["src"] if b else "?", c["first"]),
-                    {"kind": "replay", "behaviour": b, "stderr": c["stderr"]})
+                at = c.get("at")
+                ctx.violation("%s: real code %s while replaying a TLC behaviour (src=%s)%s: %s" % (
+                    what_run, "HANGS" if c["rc"] == "hang" else "crashed (rc=%s)" % c["rc"], b["src"] if b else "?",
+                    " at step %s (%s)" % (at, b["steps"][at]["op"]) if b and at is not None and 0 <= at < len(b["steps"]) else "", c["first"]),
+                    {"kind": "replay", "behaviour": dict(b, steps=b["steps"][:at + 1]) if b and at is not None and at >= 0 else b,
+                     "stderr": c["stderr"]})
     stats = {"behaviours": 0, "exports": 0, "compared": 0, "alias_dev_fields": 0, "behaviours_with_alias": 0,
              "behaviours_cut_by_crash_dev": 0, "ops": {}}
     clean = []
@@ -415,13 +430,31 @@ def record_validate(ctx, exe):
         shapes = [(n * 6, t, o) for (n, t, o) in shapes] * 2
 
     def rec(i, shape):
-        return i, shape, hrun.run_harness(exe, ["record", (ctx.seed % 2000) * 100 + i] + list(shape) + [i], timeout=900)
+        return i, shape, hrun.run_harness(exe, ["record", (ctx.seed % 2000) * 100 + i] + list(shape) + [i], timeout=900,
+                                          env={"C13_WATCHDOG_S": "60"})
     lines = []
     for i, shape, r in _par([(rec, i, s) for i, s in enumerate(shapes)], 4):
         if r.rc != 0 or r.crashed:
-            if r.timed_out or r.rc in (2, 5):
+            if r.rc in (2, 5):
                 raise Broken("recorder failed rc=%s: %s" % (r.rc, r.err[-1500:]))
             last = max([j for j, ln in enumerate(r.lines) if '"e":"Cfg"' in ln] or [0])
+            if r.rc == 3 or r.timed_out:
+                if not ctx.violations:      # confirm with a long watchdog unless something is already established
+                    r2 = hrun.run_harness(exe, ["record", (ctx.seed % 2000) * 100 + i] + list(shape) + [i], timeout=900,
+                                          env={"C13_WATCHDOG_S": "180"})
+                    if r2.rc == 0:
+                        lines += r2.lines
+                        continue
+                ev = []
+                for x in r.lines[last:][-40:]:
+                    try:
+                        ev.append(json.loads(x))
+                    except Exception:
+                        pass
+                ctx.violation("real code HANGS in a random program (recorder args %s): a call never returns; last logged events attached" % (
+                    list(shape),), {"kind": "record-hang", "args": [(ctx.seed % 2000) * 100 + i] + list(shape) + [i], "events_tail": ev})
+                lines += r.lines[:last]
+                continue
             ctx.violation("real code crashed (rc=%s) in a random program (recorder args %s): %s" % (r.rc, list(shape), _first_error(r.err)),
                           {"kind": "record-crash", "args": [(ctx.seed % 2000) * 100 + i] + list(shape) + [i], "stderr": r.err[-4000:]})
             lines += r.lines[:last]
@@ -494,7 +527,7 @@ def run(ctx):
     insts = concretise(ctx, behs)
     log("C13 generation done %.0fs (%d distinct behaviours, %d instances)" % (ctx.timer.s(), len(ctx.distinct), len(insts)))
     results, crashes = replay_all(ctx, exe, insts, "a")
-    stats, clean = classify(ctx, insts, results, crashes, "arena run")
+    stats, clean = classify(ctx, insts, results, crashes, "arena run", exe)
     ctx.traces += stats["behaviours"]
     ctx.evaluations += stats["behaviours"]
     ctx.extra["replay"] = stats
